@@ -14,8 +14,12 @@ import vlib
 
 IMPORTS_SRC = "From PV Require Import C12.Model.\nFrom PV Require C12.SrcRun C12.SrcRunV.\n"
 
-SRC_TIE_THEOREMS = ["c12_source_load_ref_is_model", "c12_source_load_ref_wraps", "c12_source_write_hyp_is_model",
-                    "c12_source_roundtrip_1d", "c12_source_roundtrip_2d", "c12_source_validate_is_model"]
+SRC_TIE_THEOREMS = ["c12_source_load_ref_is_model", "c12_source_src_load_ref_is_model", "c12_source_load_ref_wraps_1d",
+                    "c12_source_load_ref_wraps_2d", "c12_source_load_ref_wraps_tokens_only", "c12_source_write_hyp_is_model",
+                    "c12_source_src_write_hyp_is_model", "c12_source_write_hyp_strips", "c12_source_roundtrip_1d",
+                    "c12_source_roundtrip_2d", "c12_source_step_is_model_partial", "c12_source_validate_is_model_partial",
+                    "c12_source_strict_accepts_iff_wellformed_partial", "c12_source_strict_never_writes_partial",
+                    "c12_source_fix_result_is_repair_partial"]
 
 
 def _eval_bitlists(workdir, terms, shard=150, tag="srcbits", timeout=900):
@@ -113,8 +117,10 @@ def source_tie(chk, cases, outs):
         elif not v[1]:
             bad.append((i, kind, si, t))
     chk.extra["source_tie"] = {
-        "units": ["C12Src"], "theorems": SRC_TIE_THEOREMS,
-        "what": "translated _load_ref / _write_hyp / _info_and_validate blocks interpreted in Coq vs the implementation"}
+        "units": ["C12Src", "C12ValSrc"], "theorems": SRC_TIE_THEOREMS,
+        "what": "translated _load_ref / _write_hyp (whole bodies) and the three blocks of _info_and_validate's loop body (under the "
+                "glue of C12/SrcRunV.v) interpreted in Coq vs the implementation: loaded tensor / exception; stored hypothesis; "
+                "exception and files after validate_spect_data_set"}
     chk.extra["source_tie_run"] = {"cases": len(terms), "by_kind": kinds, "disagreements": len(bad),
                                    "outside_modelled_domain": outside, "wall_s": round(time.time() - t0, 1)}
     chk.count("source_tie_cases", len(terms))
